@@ -116,6 +116,15 @@ fn gen(seed: u64) -> GatherPlan {
     p.orders.push(p.orders[0].clone());
     p.hash_seeds.truncate(2);
     p.concurrent_gather = false;
+    // a custom collector next to the library's metrics
+    if r.chance(50) {
+        let mut fams = crate::scen::encode::gen_families(&mut r, &[crate::compat::PType::Counter, crate::compat::PType::Gauge, crate::compat::PType::Histogram, crate::compat::PType::Summary]);
+        for (i, f) in fams.iter_mut().enumerate() {
+            f.name = Some(format!("cust_{}", i));
+            f.help = Some("custom".into());
+        }
+        p.custom = fams;
+    }
     // every f64 class in float-valued scalars: zero, negative zero, NaN, infinities, subnormal
     for m in p.metrics.iter_mut() {
         if matches!(m.kind, crate::scen::gather::MK::Gauge | crate::scen::gather::MK::Pulling | crate::scen::gather::MK::Counter) && r.chance(45) {
